@@ -108,3 +108,59 @@ def ob_b1(ctx: Ctx) -> Outcome:
 
 
 ob_b1.wants_all_cores = True
+
+
+# ---- B2: schemas with FRONTMATTER requirements (builtin SKILL): x, canonical(x), canonical(canonical(x)) --------------------------
+FM_BODIES = {
+    "plain": "name: demo-skill\ndescription: Demonstrates validation\nallowed-tools: [Read, Write]",
+    "indented": "  name: demo-skill\n  description: Demonstrates validation\n  allowed-tools: [Read, Write]",
+    "trailing-spaces": "name: demo-skill   \ndescription: Demonstrates validation  ",
+    "leading-blank": "\nname: demo-skill\ndescription: Demonstrates validation",
+    "missing-description": "name: demo-skill",
+    "indented-missing": "    name: demo-skill",
+    "not-a-mapping": "- a\n- b",
+    "broken-yaml": "name: [unclosed",
+}
+
+
+def _fm_doc(body: str) -> str:
+    return "---\n" + body + "\n---\n\n===DEMO_SKILL===\nMETA:\n  TYPE::SKILL\n  VERSION::\"1.0\"\nBODY::some_text\n===END===\n"
+
+
+def _fm_one(item):
+    from octave_mcp.core.emitter import emit
+    from octave_mcp.core.parser import parse_with_warnings
+    from octave_mcp.mcp.validate import ValidateTool
+
+    name, profile = item
+    x = _fm_doc(FM_BODIES[name])
+    try:
+        c1 = emit(parse_with_warnings(x)[0])
+        c2 = emit(parse_with_warnings(c1)[0])
+    except Exception as e:  # noqa: BLE001
+        return True, f"frontmatter {name!r}: canonicalisation raised {type(e).__name__}: {e}", True, item
+    seen = []
+    for label, t in (("x", x), ("canonical(x)", c1), ("canonical(canonical(x))", c2)):
+        r = asyncio.run(ValidateTool().execute(content=t, schema="SKILL", profile=profile))
+        pairs = frozenset((e.get("code"), e.get("field")) for e in list(r.get("validation_errors") or []) + [w for w in (r.get("warnings") or []) if str(w.get("code", "")).startswith("E")])
+        seen.append((label, r.get("validation_status"), pairs))
+        if label == "x" and r.get("canonical") != c1:
+            return True, f"frontmatter {name!r} profile {profile}: fix off: canonical returned by octave_validate differs from plain canonicalisation", True, item
+    if len({(s, p) for _, s, p in seen}) > 1:
+        return True, f"frontmatter {name!r} profile {profile}: verdicts differ between spellings: {[(lab, s, sorted(p)) for lab, s, p in seen]}", True, item
+    return False, "", True, item
+
+
+def replay_fm(item):
+    r = _fm_one((item[0], item[1]))
+    return r[0], r[1] or "verdicts agree"
+
+
+def ob_b2(ctx: Ctx) -> Outcome:
+    items_ = [(n, p) for n in FM_BODIES for p in ("STRICT", "STANDARD", "LENIENT", "ULTRA")]
+    res = sweep(_fm_one, items_, 1, chunk=4)  # small; runs inside a pool worker, so no pool of its own
+    wits = [Witness(what=text, input=list(item), key=f"fm|{item[0]}", replay={"runner": "props.C09_b:replay_fm", "args": {"item": list(item)}}, confirmed=True) for item, text in res["failures"][:20]]
+    extra = dict(bound=f"builtin SKILL schema (FRONTMATTER requirements) x {len(FM_BODIES)} frontmatter bodies (plain, uniformly indented, trailing spaces, leading blank line, missing field, not a mapping, broken YAML) x 4 profiles; x, canonical(x), canonical(canonical(x)) through octave_validate", evaluations=res["evaluations"] * 3, distinct_nontrivial=res["distinct"], rule="a case is (frontmatter body, profile) with its 3 spellings")
+    if wits:
+        return Outcome.refuted("real validator/tool", wits, **extra)
+    return Outcome.ok("real validator/tool", **extra)
